@@ -7,3 +7,141 @@ try:
     REPLAYERS.update(getattr(_ring, "REPLAYERS", {}))
 except ImportError:
     _ring = None
+
+import numpy, z3
+from pyvc import sym, lemma
+from pyvc.lemma import real, POW, pow_succ, pow_mul, pow_one, pow_zero
+from pyvc.sym import SymInt, _t
+
+VU = "pybrops/model/vmat/util.py"
+
+
+@unit(P, "lemma[rprob_filial closed form satisfies the selfing recurrence; D1/D2 terms]", "L",
+      targets=[VU + ":rprob_filial", VU + ":cov_D1s", VU + ":cov_D2s"])
+def u_l_filial(ctx):
+    """formulas obtained by running the real functions on symbolic r (real) and k (integer)"""
+    from pybrops.model.vmat.util import rprob_filial, cov_D1s, cov_D2s
+    ctx.trust(*lemma.TRUST)
+    r = real("r")
+    k = SymInt(z3.Int("k"))
+    x = z3.RealVal("1/2") * (1 - 2 * r.t)
+    rng = [0 <= r.t, r.t <= z3.RealVal("1/2")]
+    rk, rk1 = rprob_filial(r, k), rprob_filial(r, k + 1)
+    half, om = z3.RealVal("1/2"), 1 - 2 * r.t
+    kk = z3.ToReal(k.t)
+    inst = [pow_succ(half, kk), pow_succ(om, kk)]
+    ctx.prove("rprob_filial: r_{k+1} == r + (1/2)(1-2r) r_k (closed form satisfies the selfing recurrence)",
+              rng + [k.t >= 1] + inst, _t(rk1) == r.t + x * _t(rk))
+    ctx.prove("rprob_filial: r_1 == r", rng + [pow_one(half), pow_one(om)], _t(rprob_filial(r, 1)) == r.t)
+    ctx.prove("rprob_filial: concrete k=2,3 agree with two/three steps of the recurrence", rng,
+              z3.And(_t(rprob_filial(r, 2)) == r.t + x * r.t, _t(rprob_filial(r, 3)) == r.t + x * (r.t + x * r.t)))
+    rinf = rprob_filial(r, numpy.inf)
+    ctx.prove("rprob_filial(inf) is the fixed point of the recurrence: r_inf == r + (1/2)(1-2r) r_inf", rng, _t(rinf) == r.t + x * _t(rinf))
+    ctx.prove("rprob_filial: stays in [0, 1/2] (k = 1, 2, inf)", rng,
+              z3.And(*[z3.And(_t(v) >= 0, _t(v) <= half) for v in (rprob_filial(r, 1), rprob_filial(r, 2), rinf)]))
+    # D terms: nself selfings derive gametes from filial generation nself+1
+    for ns in (0, 1, 2):
+        ctx.prove("cov_D1s(nself=%d) == 1 - 2 r_(nself+1)" % ns, rng, _t(cov_D1s(r, ns)) == 1 - 2 * _t(rprob_filial(r, ns + 1)))
+        d2 = cov_D2s(r, ns)
+        spec = 1 - 4 * r.t + 4 * r.t * _t(rprob_filial(r, ns + 1))
+        ctx.prove("cov_D2s(nself=%d) == 1 - 4r + 4r r_(nself+1)" % ns, rng, _t(d2) == spec)
+    ctx.prove("cov_D1s(inf) == 1 - 2 r_inf", rng, _t(cov_D1s(r, numpy.inf)) == 1 - 2 * _t(rinf))
+    ctx.prove("canary: r_{k+1} == r + (1-2r) r_k", rng + [k.t >= 1] + inst, _t(rk1) == r.t + 2 * x * _t(rk), expect="fail", timeout_ms=3000)
+
+
+# ---------------------------------------------------------------------------------------------------
+# mode B: the blocked double sum of the two-way matrices on symbolic genotypes, effects and positions
+
+from pyvc import barr, modeb
+VM = "pybrops/model/vmat/"
+R = lambda x: (z3.ToReal(_t(x)) if _t(x).sort() == z3.IntSort() else _t(x))
+
+
+def _inbred_pop(e, n, chroms):
+    """inbred phased population with `chroms` = list of marker counts per chromosome; genetic positions symbolic and
+    non-decreasing within each chromosome"""
+    from pybrops.popgen.gmat.DensePhasedGenotypeMatrix import DensePhasedGenotypeMatrix
+    p = sum(chroms)
+    hap = barr.fresh("h", (n, p), "int8", 0, 1)
+    mat = numpy.stack([hap, hap])            # inbred: both phases identical
+    taxa = numpy.array(["T%d" % i for i in range(n)], dtype=object)
+    chrgrp = numpy.array([c for c, k in enumerate(chroms) for _ in range(k)], dtype="int64")
+    phypos = numpy.arange(p, dtype="int64")
+    genpos = barr.fresh("g", (p,), "float64", 0, None)
+    st = 0
+    for k in chroms:
+        for j in range(st + 1, st + k):
+            e.assume(R(genpos[j - 1]) <= R(genpos[j]))
+        st += k
+    pg = DensePhasedGenotypeMatrix(mat=mat, taxa=taxa, taxa_grp=numpy.arange(n, dtype="int64"), vrnt_chrgrp=chrgrp,
+                                   vrnt_phypos=phypos, vrnt_genpos=genpos)
+    pg.group_vrnt()
+    return pg, hap, genpos
+
+
+@unit(P, "B[two-way DH genetic / genic variance == sum_ij (d_i u_i) D1(r_ij) (d_j u_j) per chromosome; symmetric; zero diagonal; chunk invariant]",
+      "B", bounded=True,
+      targets=[VM + "DenseTwoWayDHAdditiveGeneticVarianceMatrix.py:DenseTwoWayDHAdditiveGeneticVarianceMatrix.from_algmod",
+               VM + "DenseTwoWayDHAdditiveGenicVarianceMatrix.py:DenseTwoWayDHAdditiveGenicVarianceMatrix.from_algmod"],
+      note="bounded(shape): ntaxa<=3, nvrnt<=3 on 1-2 chromosomes, ntrait<=2, nself in {0,1,2,inf}, mem in {None,1,2}; haplotypes, "
+           "marker effects and genetic positions symbolic; r_ij and D1 are the real mapfn / cov_D1s applied to the symbolic distance "
+           "(their own contracts: C11 lemmas, the rprob_filial lemma unit)")
+def u_b_twoway(ctx):
+    ctx.trust(*lemma.TRUST)
+
+    def body(e, shape, tag):
+        from pybrops.model.vmat.DenseTwoWayDHAdditiveGeneticVarianceMatrix import DenseTwoWayDHAdditiveGeneticVarianceMatrix as GV
+        from pybrops.model.vmat.DenseTwoWayDHAdditiveGenicVarianceMatrix import DenseTwoWayDHAdditiveGenicVarianceMatrix as NV
+        from pybrops.model.gmod.DenseAdditiveLinearGenomicModel import DenseAdditiveLinearGenomicModel as A
+        from pybrops.popgen.gmap.HaldaneMapFunction import HaldaneMapFunction
+        from pybrops.model.vmat.util import cov_D1s
+        n, chroms, t, nself, mem = shape
+        p = sum(chroms)
+        pg, hap, genpos = _inbred_pop(e, n, chroms)
+        u = barr.fresh("u", (p, t), "float64")
+        trait = numpy.array(["t%d" % i for i in range(t)], dtype=object)
+        alg = A(beta=barr.fresh("b", (1, t), "float64"), u_misc=None, u_a=u, trait=trait)
+        fn = HaldaneMapFunction()
+        out = GV.from_algmod(alg, pg, 1, 1, nself, fn, mem)
+        V = out.mat
+        e.prove(tag + ":shape", tuple(V.shape) == (n, n, t))
+        bounds, st = [], 0
+        for k in chroms:
+            bounds.append((st, st + k))
+            st += k
+
+        def D(i, j):
+            dist = z3.If(R(genpos[i]) >= R(genpos[j]), R(genpos[i]) - R(genpos[j]), R(genpos[j]) - R(genpos[i]))
+            return R(cov_D1s(fn.mapfn(sym.SymReal(dist)), nself))
+        for f in range(n):
+            for m in range(n):
+                for k in range(t):
+                    d = [R(hap[f, i]) - R(hap[m, i]) for i in range(p)]
+                    spec = sum((d[i] * R(u[i, k]) * D(i, j) * d[j] * R(u[j, k]) for a, b in bounds for i in range(a, b) for j in range(a, b)),
+                               z3.RealVal(0))
+                    if f == m:
+                        e.prove(tag + ":genetic[%d,%d,%d]==0 (identical parents)" % (f, m, k), R(V[f, m, k]) == 0)
+                    else:
+                        e.prove(tag + ":genetic[%d,%d,%d]==blocked-double-sum" % (f, m, k), R(V[f, m, k]) == spec)
+        e.prove(tag + ":genetic:symmetric", z3.And(*[R(V[f, m, k]) == R(V[m, f, k]) for f in range(n) for m in range(n) for k in range(t)]))
+        e.prove(tag + ":genetic:labels-carried", list(out.taxa) == list(pg.taxa) and list(out.trait) == list(trait))
+        e.prove(tag + ":canary:variance-is-zero", z3.And(*[R(V[f, m, k]) == 0 for f in range(n) for m in range(n) for k in range(t)]),
+                expect="fail", timeout_ms=3000)
+        if p > 2 and ctx.tier != "thorough":
+            return "ok"         # the genic identity with 3 loci is a hard nonlinear query (30 s each): thorough tier only
+        gout = NV.from_algmod(alg, pg, 1, 1000 if mem is None else mem)
+        W = gout.mat
+        for f in range(n):
+            for m in range(n):
+                if f == m:
+                    continue        # diagonal of the genic matrix: known finding C12-F41 (never written)
+                for k in range(t):
+                    d = [R(hap[f, i]) - R(hap[m, i]) for i in range(p)]
+                    spec = sum((d[i] * R(u[i, k]) * d[i] * R(u[i, k]) for i in range(p)), z3.RealVal(0))
+                    e.prove(tag + ":genic[%d,%d,%d]==sum_i (d_i u_i)^2 (linkage ignored)" % (f, m, k), R(W[f, m, k]) == spec)
+        return "ok"
+    inf = numpy.inf
+    shapes = [(2, (1,), 1, 0, 1024), (2, (2,), 1, 0, None), (2, (2,), 1, 1, 1), (2, (2, 1), 2, inf, 2), (3, (2,), 1, 2, 1)]
+    if ctx.tier == "thorough":
+        shapes += [(3, (3,), 1, 1, 2), (2, (2, 2), 1, 0, 1), (3, (1, 2), 2, inf, None)]
+    modeb.run_shapes(ctx, "twoway", shapes, body, timeout_ms=30000)
